@@ -68,6 +68,48 @@ func sanitize(s string) string {
 	return s
 }
 
+// Process environments of the worker re-executions.  Consensus results must not depend on any of it:
+// time zone, locale, CPU count, working directory, home / host / user names, temp directory.
+type envProfile struct {
+	name string
+	vars map[string]string
+	cwd  string // "" inherit, "." the worker's own output directory
+}
+
+var envProfiles = []envProfile{
+	{name: "inherited"},
+	{name: "far", cwd: ".", vars: map[string]string{"TZ": "Pacific/Kiritimati", "VERIF_FIXED_ZONE_SECONDS": "50400", "GOMAXPROCS": "1", "LANG": "tr_TR.UTF-8", "LC_ALL": "tr_TR.UTF-8",
+		"LANGUAGE": "tr", "HOME": "/nonexistent/verif-home", "HOSTNAME": "verif-far-host", "USER": "nobody", "LOGNAME": "nobody", "TMPDIR": "."}},
+	{name: "utc", cwd: "/", vars: map[string]string{"TZ": "UTC", "GOMAXPROCS": "4", "LANG": "C", "LC_ALL": "C", "HOME": "/", "HOSTNAME": "verif-utc-host"}},
+	{name: "west", vars: map[string]string{"TZ": "America/Anchorage", "VERIF_FIXED_ZONE_SECONDS": "-32400", "GOMAXPROCS": "2", "LANG": "de_DE.ISO-8859-1", "LC_NUMERIC": "de_DE"}},
+}
+
+func (e envProfile) apply(base []string, dir string) []string {
+	out := make([]string, 0, len(base)+len(e.vars))
+	for _, kv := range base {
+		k := kv
+		if i := strings.Index(kv, "="); i >= 0 {
+			k = kv[:i]
+		}
+		if _, over := e.vars[k]; !over {
+			out = append(out, kv)
+		}
+	}
+	keys := make([]string, 0, len(e.vars))
+	for k := range e.vars {
+		keys = append(keys, k)
+	}
+	sort.Strings(keys)
+	for _, k := range keys {
+		v := e.vars[k]
+		if v == "." {
+			v = dir
+		}
+		out = append(out, k+"="+v)
+	}
+	return out
+}
+
 // runAll returns N executions of the history: the pilot's, then fresh in-process and worker-process ones.
 func runAll(spec *Spec, pilot Exec, N int, outDir string) ([]Exec, []string) {
 	execs := []Exec{pilot}
@@ -76,6 +118,15 @@ func runAll(spec *Spec, pilot Exec, N int, outDir string) ([]Exec, []string) {
 	nProc := rest / 2
 	nIn := rest - nProc
 	// worker processes (concurrently)
+	if abs, err := filepath.Abs(outDir); err == nil {
+		outDir = abs // workers may run in another working directory
+	}
+	self := os.Args[0]
+	if abs, err := exec.LookPath(self); err == nil {
+		if abs2, err := filepath.Abs(abs); err == nil {
+			self = abs2
+		}
+	}
 	specPath := filepath.Join(outDir, spec.Name+".spec.json")
 	sb, _ := json.Marshal(spec)
 	if err := os.WriteFile(specPath, sb, 0o644); err != nil {
@@ -83,6 +134,7 @@ func runAll(spec *Spec, pilot Exec, N int, outDir string) ([]Exec, []string) {
 	}
 	procRes := make([]Exec, nProc)
 	procMode := make([]int, nProc)
+	procEnv := make([]string, nProc)
 	var wg sync.WaitGroup
 	sem := make(chan struct{}, 6)
 	for i := 0; i < nProc; i++ {
@@ -95,7 +147,15 @@ func runAll(spec *Spec, pilot Exec, N int, outDir string) ([]Exec, []string) {
 			os.MkdirAll(dir, 0o755)
 			mode := []int{ModePlain, ModeTwin, ModeRestart}[i%3]
 			procMode[i] = mode
-			cmd := exec.Command(os.Args[0], "replay_worker", "-seed", "0", "-n", fmt.Sprint(mode), "-out", dir, "-replay", specPath)
+			env := envProfiles[(i+1+i/3)%len(envProfiles)]
+			procEnv[i] = env.name
+			cmd := exec.Command(self, "replay_worker", "-seed", "0", "-n", fmt.Sprint(mode), "-out", dir, "-replay", specPath)
+			cmd.Env = env.apply(os.Environ(), dir)
+			if env.cwd == "." {
+				cmd.Dir = dir
+			} else if env.cwd != "" {
+				cmd.Dir = env.cwd
+			}
 			cmd.Stdout, cmd.Stderr = nil, nil
 			if err := cmd.Run(); err != nil {
 				procRes[i] = Exec{Panic: "worker-process-failed:" + err.Error()}
@@ -119,13 +179,23 @@ func runAll(spec *Spec, pilot Exec, N int, outDir string) ([]Exec, []string) {
 	// memory is still there for the next one
 	for i := 0; i < nIn; i++ {
 		mode := []int{ModePlain, ModeTwin, ModeRestart}[i%3]
-		execs = append(execs, ExecuteMode(spec, mode))
-		how = append(how, "inproc."+modeNames[mode])
+		zone := ""
+		if i%2 == 1 {
+			// the process's local time zone, changed in place (does not need zone data on the machine)
+			saved := time.Local
+			time.Local = time.FixedZone("VRF", 14*3600)
+			zone = ".zone=+14"
+			execs = append(execs, ExecuteMode(spec, mode))
+			time.Local = saved
+		} else {
+			execs = append(execs, ExecuteMode(spec, mode))
+		}
+		how = append(how, "inproc."+modeNames[mode]+zone)
 	}
 	wg.Wait()
 	for i := range procRes {
 		execs = append(execs, procRes[i])
-		how = append(how, "process."+modeNames[procMode[i]])
+		how = append(how, "process."+modeNames[procMode[i]]+".env="+procEnv[i])
 	}
 	return execs, how
 }
